@@ -27,6 +27,85 @@ func loopHeader(fn *ssa.Function) *ssa.BasicBlock {
 	return nil
 }
 
+// loopFunc returns the function that holds the loop of a query method: fn itself, or — when the
+// loop was moved into a helper — the one module function with a loop that fn reaches through
+// static calls (at most three levels down).
+func (c *Ctx) loopFunc(fn *ssa.Function) (*ssa.Function, *ssa.BasicBlock) {
+	if H := loopHeader(fn); H != nil {
+		return fn, H
+	}
+	var found []*ssa.Function
+	seen := map[*ssa.Function]bool{fn: true}
+	var visit func(f *ssa.Function, depth int)
+	visit = func(f *ssa.Function, depth int) {
+		for _, b := range f.Blocks {
+			for _, ins := range b.Instrs {
+				call, ok := ins.(ssa.CallInstruction)
+				if !ok {
+					continue
+				}
+				g := call.Common().StaticCallee()
+				if g == nil || seen[g] || g.Blocks == nil || !c.inModule(g) {
+					continue
+				}
+				seen[g] = true
+				if loopHeader(g) != nil {
+					found = append(found, g)
+				} else if depth < 3 {
+					visit(g, depth+1)
+				}
+			}
+		}
+	}
+	visit(fn, 1)
+	if len(found) == 1 {
+		return found[0], loopHeader(found[0])
+	}
+	return nil, nil
+}
+
+// enterLoop evaluates fn from its entry up to the header H of the loop in lf.  If lf is a helper
+// of fn, fn is evaluated until it calls lf and the evaluation continues in lf with the argument
+// values of that call — the same thing as the loop standing in fn itself.
+func (c *Ctx) enterLoop(ev *ssaEval, fn, lf *ssa.Function, H *ssa.BasicBlock, args []sv) (*frame, bool) {
+	fr := &frame{vals: map[ssa.Value]sv{}}
+	for i, p := range fn.Params {
+		if i < len(args) {
+			fr.vals[p] = args[i]
+		}
+	}
+	if lf != fn {
+		var captured []sv
+		entered := false
+		orig := ev.call
+		ev.call = func(call ssa.CallInstruction, a []sv) (sv, bool) {
+			if call != nil && !entered && call.Common().StaticCallee() == lf {
+				captured, entered = a, true
+				ev.why = "entered the function with the loop"
+				return sv{}, true
+			}
+			if orig != nil {
+				return orig(call, a)
+			}
+			return sv{}, false
+		}
+		ev.runBlocks(fr, fn.Blocks[0], nil, nil)
+		ev.call = orig
+		if !entered {
+			return fr, false
+		}
+		ev.why = ""
+		fr = &frame{vals: map[ssa.Value]sv{}}
+		for i, p := range lf.Params {
+			if i < len(captured) {
+				fr.vals[p] = captured[i]
+			}
+		}
+	}
+	at, _, _ := ev.runBlocks(fr, lf.Blocks[0], nil, func(next, from *ssa.BasicBlock) bool { return next == H })
+	return fr, at == H
+}
+
 type iterResult struct {
 	ok      bool
 	why     string
@@ -41,7 +120,7 @@ type iterResult struct {
 func (c *Ctx) bboxRulesSSA(pkg, typ, method string, pdf bool) {
 	fn := c.method(pkg, typ, method)
 	name := pkg + ".(*" + typ + ")." + method
-	H := loopHeader(fn)
+	lf, H := c.loopFunc(fn)
 	if H == nil {
 		c.undecided("Q-BBOX", name, "loop over the path commands", fn.Pos(), "no loop found")
 		return
@@ -128,14 +207,13 @@ func (c *Ctx) bboxRulesSSA(pkg, typ, method string, pdf bool) {
 					}
 					return sv{}, false
 				}
-				fr := &frame{vals: map[ssa.Value]sv{}}
-				for i, p := range fn.Params {
-					fr.vals[p] = sv{k: svAddr, s: fmt.Sprintf("param%d", i)}
+				var pargs []sv
+				for i := range fn.Params {
+					pargs = append(pargs, sv{k: svAddr, s: fmt.Sprintf("param%d", i)})
 				}
 				// prefix: up to the loop header
-				stopAtH := func(next, from *ssa.BasicBlock) bool { return next == H }
-				at, _, _ := ev.runBlocks(fr, fn.Blocks[0], nil, stopAtH)
-				if at != H {
+				fr, reached := c.enterLoop(ev, fn, lf, H, pargs)
+				if !reached {
 					problems = append(problems, "the loop is not reached on the path of an existing glyph: "+ev.why)
 					continue
 				}
@@ -150,7 +228,7 @@ func (c *Ctx) bboxRulesSSA(pkg, typ, method string, pdf bool) {
 				}
 				// result cell: the struct the function returns
 				retCell := ""
-				for _, r := range returns(fn) {
+				for _, r := range returns(lf) {
 					if len(r.Results) == 1 {
 						if ld, ok := r.Results[0].(*ssa.UnOp); ok && ld.Op == token.MUL {
 							if v := ev.val(fr, ld.X); v.k == svAddr {
